@@ -117,13 +117,14 @@ def r2_exclusion(ctx, prog):
     ctx.analysed(f)
     SER, RW = macro(prog, 'CKF_SERIAL_SESSION'), macro(prog, 'CKF_RW_SESSION')
     pflags = param_name(f, 1)
-    for rw in (0, 1):
-        for so in (0, 1):
-            cenv = {pflags: SER | (RW if rw else 0), re.compile(r'isSOLoggedIn\(\w+\)'): so, re.compile(r'isInitialized\(\w+\)'): 1, param_name(f, 4): 1, param_name(f, 0): 1,
+    # the flags are a bit set: whether the session is read-only is decided by CKF_RW_SESSION alone, whatever other bits the application sets (0x1 is the CKF_EXCLUSIVE_SESSION of PKCS#11 v1)
+    for rw, so, extra in [(rw, so, extra) for rw in (0, 1) for so in (0, 1) for extra in (0, 1, 8, 0x80000000)]:
+        if True:
+            cenv = {pflags: SER | (RW if rw else 0) | extra, re.compile(r'isSOLoggedIn\(\w+\)'): so, re.compile(r'isInitialized\(\w+\)'): 1, param_name(f, 4): 1, param_name(f, 0): 1,
                     re.compile(r'getToken\(\w+\)'): 1}
             o = outcomes(f, prog, cenv, record={'new Session', 'push_back', 'setHandle'})
             r.paths += len(o.outcomes)
-            site = 'openSession rw=%d so-logged-in=%d' % (rw, so)
+            site = 'openSession rw=%d so-logged-in=%d%s' % (rw, so, ' other flag bits 0x%x' % extra if extra else '')
             bad = None
             for oc in o.outcomes:
                 created = [e for e in oc['events'] if e[1] == 'new Session']
